@@ -54,7 +54,7 @@ def x_cursor(x, x_it, x_next_val, x_idx):
 # ------------------------------------------------------------------------------- lower
 
 contract(LOWER, params=dict(x=Seq(Real, kind='arraylike'), lookup=Seq(Real, kind='arraylike'), fill_not_valid=Bool),
-         returns=Seq(Int))
+         returns=Seq(Int), generator='gen_lower')
 
 
 @requires(LOWER)
@@ -110,7 +110,7 @@ def lower_dec3(x, x_idx):
 # ------------------------------------------------------------------------------ higher
 
 contract(HIGHER, params=dict(x=Seq(Real, kind='arraylike'), lookup=Seq(Real, kind='arraylike'), fill_not_valid=Bool),
-         returns=Seq(Int))
+         returns=Seq(Int), generator='gen_lower')
 
 
 @requires(HIGHER)
@@ -165,7 +165,8 @@ def higher_dec3(x, x_idx):
 
 # ----------------------------------------------------------------------------- closest
 
-contract(CLOSEST, params=dict(x=Seq(Real, kind='arraylike'), lookup=Seq(Real, kind='arraylike')), returns=Seq(Int))
+contract(CLOSEST, params=dict(x=Seq(Real, kind='arraylike'), lookup=Seq(Real, kind='arraylike')), returns=Seq(Int),
+         generator='gen_closest')
 
 
 @requires(CLOSEST)
@@ -222,7 +223,7 @@ def closest_dec3(x, x_idx):
 # -------------------------------------------------------------------------- dispatcher
 
 contract(DISPATCH, params=dict(x=Seq(Real, kind='arraylike'), lookup=Seq(Real, kind='arraylike'), strategy=Str,
-                               fill_not_valid=Bool), returns=Seq(Int))
+                               fill_not_valid=Bool), returns=Seq(Int), generator='gen_dispatch')
 
 
 @requires(DISPATCH)
@@ -242,3 +243,41 @@ def dispatch_post(x, lookup, strategy, fill_not_valid, result):
                        spec_closest(x, lookup[j], result[j]) if strategy == 'closest' else
                        (spec_lower(x, lookup[j], result[j], fill_not_valid) if strategy == 'lower' else
                         spec_higher(x, lookup[j], result[j], fill_not_valid))))
+
+
+# ------------------------------------------------------------------ run-time generators (bounded stand-in only)
+
+def gen_scan_inputs(rnd):
+    """strictly increasing x; queries equal to, adjacent (a few ulp / 1e-9 / 1e-7) to, between and beyond the elements"""
+    import numpy as np
+    n = rnd.randint(1, 6)
+    x = np.cumsum([rnd.choice([0.5, 1.0, 1.5]) for _ in range(n)]) + rnd.choice([-4.0, -1.0, 0.0, 3.0])
+    qs = []
+    for _ in range(rnd.randint(1, 5)):
+        e = float(rnd.choice(list(x)))
+        mode = rnd.random()
+        if mode < 0.3:
+            qs.append(e)
+        elif mode < 0.55:
+            qs.append(e + rnd.choice([-1, 1]) * rnd.choice([np.spacing(e), 1e-9, 1e-7, 1e-6]))
+        elif mode < 0.8:
+            qs.append(e + rnd.choice([-0.25, 0.25, 0.5, -0.5]))
+        else:
+            qs.append(rnd.choice([x[0] - 1.0, x[-1] + 1.0, 0.0]))
+    qs = sorted(qs)
+    return x, np.array(qs)
+
+
+def gen_lower(rnd):
+    x, q = gen_scan_inputs(rnd)
+    return dict(x=x if rnd.random() < 0.7 else x.tolist(), lookup=q if rnd.random() < 0.7 else q.tolist(), fill_not_valid=rnd.random() < 0.5)
+
+
+def gen_closest(rnd):
+    x, q = gen_scan_inputs(rnd)
+    return dict(x=x, lookup=q)
+
+
+def gen_dispatch(rnd):
+    x, q = gen_scan_inputs(rnd)
+    return dict(x=x, lookup=q, strategy=rnd.choice(['closest', 'lower', 'higher', 'nearest']), fill_not_valid=rnd.random() < 0.5)
